@@ -341,22 +341,25 @@ func (p *BlockPipeline) Stats() PipelineStats {
 	return p.metrics.Stats()
 }
 
-// PendingCount returns the approximate number of items still being processed.
-// This includes items in inter-stage channels and items buffered in the apply stage.
+// PendingCount returns the number of accepted items that are not finished yet
+// (applied, or skipped because they failed an earlier stage). This covers items
+// in the inter-stage channels, items held by a decode/validate worker or by the
+// apply runner, items buffered in the apply stage and the item being applied.
+// A Submit that is still blocked on backpressure counts as pending.
 // Useful for coordinating with rollback operations.
 func (p *BlockPipeline) PendingCount() int {
 	if !p.started.Load() {
 		return 0
 	}
-	channelDepth := len(p.submitChan) + len(p.decodedChan) + len(p.validatedChan)
-	applyPending := 0
-	if p.applyStage != nil {
-		applyPending = p.applyStage.PendingCount()
-	}
+	// Every accepted item carries a sequence number below sequenceCounter and
+	// the apply stage is done with all numbers below processedCount. Read the
+	// processed count first: it can never be ahead of the counter read after it.
+	processed := p.applyStage.processedCount()
+	pending := int(p.sequenceCounter.Load() - processed) // #nosec G115
 	if verifEnabled {
-		verifTrace("pending_count", nil, channelDepth+applyPending)
+		verifTrace("pending_count", nil, pending)
 	}
-	return channelDepth + applyPending
+	return pending
 }
 
 // WaitForDrain blocks until all currently submitted items have been processed
